@@ -145,17 +145,30 @@ func genSets(r *vgen.Rand, n int) ([][]kv, map[string]uint64) {
 type delivery map[string]map[uint64]int64 // metric name -> key -> value (model units)
 
 type recExporter struct {
-	gate chan struct{} // non-nil: Export hands the data over, then stalls until the gate is closed or its context ends
-	temp metricdata.Temporality
-	mu   sync.Mutex
-	exps []delivery
-	ext  func(*metricdata.ResourceMetrics) delivery
-	down bool
+	aggMode int
+	gate    chan struct{} // non-nil: Export hands the data over, then stalls until the gate is closed or its context ends
+	temp    metricdata.Temporality
+	mu      sync.Mutex
+	exps    []delivery
+	ext     func(*metricdata.ResourceMetrics) delivery
+	down    bool
 }
 
 func (e *recExporter) Temporality(sdk.InstrumentKind) metricdata.Temporality { return e.temp }
-func (e *recExporter) Aggregation(k sdk.InstrumentKind) sdk.Aggregation {
-	return sdk.DefaultAggregationSelector(k)
+func (e *recExporter) Aggregation(k sdk.InstrumentKind) sdk.Aggregation      { return aggSel(e.aggMode)(k) }
+
+// aggSel: three spellings of "the default aggregation" a reader may answer with.
+func aggSel(mode int) sdk.AggregationSelector {
+	return func(k sdk.InstrumentKind) sdk.Aggregation {
+		switch mode % 3 {
+		case 1:
+			return nil
+		case 2:
+			return sdk.AggregationDefault{}
+		default:
+			return sdk.DefaultAggregationSelector(k)
+		}
+	}
 }
 func (e *recExporter) Export(ctx context.Context, rm *metricdata.ResourceMetrics) error {
 	d := e.ext(rm)
@@ -205,27 +218,51 @@ func (c readerCfg) coq(cb bool) string {
 	return vgen.App(f, vgen.Bool(c.delta), vgen.Bool(cb))
 }
 
+// handle: one value returned by a Meter.*Counter call; an instrument may have been obtained several
+// times (same name again, a name differing only in case, through a second Meter() call for the
+// same scope): every handle must feed the same stream(s), each measurement exactly once.
+type handle struct {
+	ic metric.Int64Counter
+	iu metric.Int64UpDownCounter
+	fc metric.Float64Counter
+	fu metric.Float64UpDownCounter
+}
+
 type instr struct {
 	name    string
 	streams []int // indices (into world.streams) of the stream identities this instrument feeds
 	float   bool
 	updown  bool
-	ic      metric.Int64Counter
-	iu      metric.Int64UpDownCounter
-	fc      metric.Float64Counter
-	fu      metric.Float64UpDownCounter
+	hs      []handle
 }
 
-func (in *instr) add(ctx context.Context, v int64, opt metric.AddOption) {
+// addOpts spells the attributes of one measurement in one of three ways.
+func addOpts(kvs []kv, mode int) []metric.AddOption {
+	as := toAttr(kvs)
+	switch mode % 3 {
+	case 1:
+		return []metric.AddOption{metric.WithAttributeSet(attribute.NewSet(as...))}
+	case 2: // two options whose sets are merged
+		h := len(as) / 2
+		return []metric.AddOption{metric.WithAttributes(as[:h]...), metric.WithAttributes(as[h:]...)}
+	default:
+		return []metric.AddOption{metric.WithAttributes(as...)}
+	}
+}
+
+// add records v through handle number hi (mod the number of handles), attributes spelled per mode.
+func (in *instr) add(ctx context.Context, v int64, kvs []kv, mode, hi int) {
+	opts := addOpts(kvs, mode)
+	h := in.hs[hi%len(in.hs)]
 	switch {
 	case in.float && in.updown:
-		in.fu.Add(ctx, float64(v)/scale, opt)
+		h.fu.Add(ctx, float64(v)/scale, opts...)
 	case in.float:
-		in.fc.Add(ctx, float64(v)/scale, opt)
+		h.fc.Add(ctx, float64(v)/scale, opts...)
 	case in.updown:
-		in.iu.Add(ctx, v, opt)
+		h.iu.Add(ctx, v, opts...)
 	default:
-		in.ic.Add(ctx, v, opt)
+		h.ic.Add(ctx, v, opts...)
 	}
 }
 
@@ -330,7 +367,7 @@ func build(w *vgen.Writer, r *vgen.Rand, desc any, cfgs []readerCfg, nInst int, 
 		}
 		wd.wantT = append(wd.wantT, t)
 		if c.periodic {
-			e := &recExporter{temp: t}
+			e := &recExporter{temp: t, aggMode: r.Intn(3)}
 			e.ext = wd.extractor(t)
 			pr := sdk.NewPeriodicReader(e, sdk.WithInterval(interval), sdk.WithTimeout(60*time.Second))
 			wd.period = append(wd.period, pr)
@@ -342,7 +379,7 @@ func build(w *vgen.Writer, r *vgen.Rand, desc any, cfgs []readerCfg, nInst int, 
 			if c.delta {
 				sel = allDelta
 			}
-			mr := sdk.NewManualReader(sdk.WithTemporalitySelector(sel))
+			mr := sdk.NewManualReader(sdk.WithTemporalitySelector(sel), sdk.WithAggregationSelector(aggSel(r.Intn(3))))
 			wd.manual = append(wd.manual, mr)
 			wd.period = append(wd.period, nil)
 			wd.exps = append(wd.exps, nil)
@@ -354,11 +391,12 @@ func build(w *vgen.Writer, r *vgen.Rand, desc any, cfgs []readerCfg, nInst int, 
 	// every measurement of the instrument exactly once.
 	names := make([][]string, nInst)
 	invalid := make([]bool, nInst)
+	viewed := make([]bool, nInst)
 	for i := 0; i < nInst; i++ {
 		base := fmt.Sprintf("c%d", i)
 		names[i] = []string{base}
 		if views {
-			switch r.Intn(8) {
+			switch r.Intn(10) {
 			case 0:
 				names[i] = []string{base + "x"}
 			case 1:
@@ -369,10 +407,26 @@ func build(w *vgen.Writer, r *vgen.Rand, desc any, cfgs []readerCfg, nInst int, 
 				names[i] = []string{base + "x", base + "y"}
 			case 4:
 				names[i] = []string{strings.ToUpper(base) + "Y", base + "y"}
+			case 5: // a view that asks for the default aggregation in so many words, criteria with a wildcard
+				opts = append(opts, sdk.WithView(sdk.NewView(sdk.Instrument{Name: base + "*"}, sdk.Stream{Aggregation: sdk.AggregationDefault{}})))
+				viewed[i] = true
+				wd.viewsD = append(wd.viewsD, base+"* -> default aggregation")
+			case 6: // dropped: the instrument has no stream at all, nothing may be reported for it
+				if nInst > 1 {
+					opts = append(opts, sdk.WithView(sdk.NewView(sdk.Instrument{Name: base}, sdk.Stream{Aggregation: sdk.AggregationDrop{}})))
+					names[i] = nil
+					viewed[i] = true
+					wd.viewsD = append(wd.viewsD, base+" -> drop")
+				}
 			}
-			if len(names[i]) > 1 || names[i][0] != base {
+			if len(names[i]) > 1 || (len(names[i]) == 1 && names[i][0] != base) {
+				viewed[i] = true
 				for _, n := range names[i] {
-					opts = append(opts, sdk.WithView(sdk.NewView(sdk.Instrument{Name: base}, sdk.Stream{Name: n})))
+					st := sdk.Stream{Name: n}
+					if r.Chance(1, 4) {
+						st.Aggregation = sdk.AggregationDefault{}
+					}
+					opts = append(opts, sdk.WithView(sdk.NewView(sdk.Instrument{Name: base}, st)))
 				}
 				wd.viewsD = append(wd.viewsD, fmt.Sprintf("%s -> %v", base, names[i]))
 				// next to the valid view(s), sometimes one whose aggregation the instrument kind cannot use
@@ -409,16 +463,49 @@ func build(w *vgen.Writer, r *vgen.Rand, desc any, cfgs []readerCfg, nInst int, 
 		if forceKind == 1 {
 			in.updown = false
 		}
-		var err error
-		switch {
-		case in.float && in.updown:
-			in.fu, err = meter.Float64UpDownCounter(in.name)
-		case in.float:
-			in.fc, err = meter.Float64Counter(in.name)
-		case in.updown:
-			in.iu, err = meter.Int64UpDownCounter(in.name)
-		default:
-			in.ic, err = meter.Int64Counter(in.name)
+		mk := func(mt metric.Meter, name string) (handle, error) {
+			var h handle
+			var err error
+			switch {
+			case in.float && in.updown:
+				h.fu, err = mt.Float64UpDownCounter(name)
+			case in.float:
+				h.fc, err = mt.Float64Counter(name)
+			case in.updown:
+				h.iu, err = mt.Int64UpDownCounter(name)
+			default:
+				h.ic, err = mt.Int64Counter(name)
+			}
+			return h, err
+		}
+		h0, err := mk(meter, in.name)
+		in.hs = []handle{h0}
+		if views && err == nil { // the same instrument obtained again: every handle feeds the same stream(s)
+			for j, n := 0, r.Intn(3); j < n; j++ {
+				mt := meter
+				if r.Bool() {
+					mt = wd.mp.Meter("verif/c02") // the provider hands out the same meter for the same scope
+				}
+				name := in.name
+				if !viewed[i] && r.Bool() {
+					name = strings.ToUpper(name) // instrument names are case-insensitive
+				}
+				if h, e := mk(mt, name); e == nil {
+					in.hs = append(in.hs, h)
+					w.Tally("instrument obtained again (" + map[bool]string{true: "same name", false: "other letter case"}[name == in.name] + ")")
+				} else {
+					wd.bad("obtaining an existing instrument again failed: " + e.Error())
+				}
+			}
+		}
+		for _, h := range in.hs {
+			for _, x := range []any{h.ic, h.iu, h.fc, h.fu} {
+				if en, ok := x.(interface{ Enabled(context.Context) bool }); ok && x != nil {
+					if en.Enabled(context.Background()) != (len(in.streams) > 0) {
+						wd.bad("Enabled() does not say whether the instrument has a stream")
+					}
+				}
+			}
 		}
 		if err != nil && !invalid[i] {
 			return nil, err
@@ -526,6 +613,8 @@ func genValue(r *vgen.Rand, in *instr) int64 {
 
 type seqOp struct {
 	typ  string // add | collect | flush | shutdown | err
+	mode int    // how the attributes of an add are spelled
+	h    int    // which handle of the instrument records an add
 	r, i int
 	set  int
 	v    int64
@@ -546,12 +635,16 @@ func runSequential(w *vgen.Writer, r *vgen.Rand, desc string, cfgs []readerCfg, 
 	codes := make([][]string, len(cfgs))
 	var terms, descOps []string
 	down := make([]bool, len(cfgs))
+	pdown := false
+	// destination objects: a fresh ResourceMetrics per Collect, or one per reader that is used again and again
+	reuse := gen && r.Bool()
+	rms := make([]metricdata.ResourceMetrics, len(cfgs))
 	step := func(o seqOp) {
 		switch o.typ {
 		case "add":
 			in := wd.insts[o.i]
 			s := sets[o.set%len(sets)]
-			in.add(ctx, o.v, metric.WithAttributes(toAttr(s)...))
+			in.add(ctx, o.v, s, o.mode, o.h)
 			for _, si := range in.streams { // one measurement, seen once by every stream identity of the instrument
 				terms = append(terms, vgen.App("Ad", vgen.N(uint64(si)), vgen.N(keyIdx[canon(s)]), zig(o.v)))
 			}
@@ -561,7 +654,22 @@ func runSequential(w *vgen.Writer, r *vgen.Rand, desc string, cfgs []readerCfg, 
 			terms = append(terms, vgen.App("Er", vgen.Bool(o.b)))
 			descOps = append(descOps, fmt.Sprintf("callback fails=%v", o.b))
 		case "collect", "collectc":
-			var rm metricdata.ResourceMetrics
+			var fresh metricdata.ResourceMetrics
+			rmp := &fresh
+			if reuse {
+				rmp = &rms[o.r]
+			}
+			if o.v == 1 { // a nil destination first: an error, and nothing may be consumed by it
+				var e0 error
+				if cfgs[o.r].periodic {
+					e0 = wd.period[o.r].Collect(ctx, nil)
+				} else {
+					e0 = wd.manual[o.r].Collect(ctx, nil)
+				}
+				if e0 == nil {
+					w.Violation("Collect with a nil destination returned no error", desc)
+				}
+			}
 			var e error
 			cctx := ctx
 			if o.typ == "collectc" { // a context that is already cancelled
@@ -571,14 +679,14 @@ func runSequential(w *vgen.Writer, r *vgen.Rand, desc string, cfgs []readerCfg, 
 				w.Tally("seq:collect with a cancelled context")
 			}
 			if cfgs[o.r].periodic {
-				e = wd.period[o.r].Collect(cctx, &rm)
+				e = wd.period[o.r].Collect(cctx, rmp)
 			} else {
-				e = wd.manual[o.r].Collect(cctx, &rm)
+				e = wd.manual[o.r].Collect(cctx, rmp)
 			}
 			c := code(e)
 			if c == 0 || c == 2 {
-				dels[o.r] = append(dels[o.r], wd.extractor(wd.wantT[o.r])(&rm))
-			} else if len(rm.ScopeMetrics) != 0 {
+				dels[o.r] = append(dels[o.r], wd.extractor(wd.wantT[o.r])(rmp))
+			} else if len(rmp.ScopeMetrics) != 0 && c != 1 {
 				w.Violation("Collect returned an error other than the callback's together with data", desc)
 			}
 			codes[o.r] = append(codes[o.r], vgen.N(c))
@@ -608,6 +716,50 @@ func runSequential(w *vgen.Writer, r *vgen.Rand, desc string, cfgs []readerCfg, 
 			codes[o.r] = append(codes[o.r], vgen.N(code(e)))
 			terms = append(terms, vgen.App("Sd", vgen.N(uint64(o.r))))
 			descOps = append(descOps, fmt.Sprintf("shutdown r%d -> %d", o.r, code(e)))
+		case "pflush":
+			// MeterProvider.ForceFlush = ForceFlush of every reader that has one (the periodic ones), in
+			// registration order; the joined result does not reveal the individual ones (code 7)
+			n0 := make([]int, len(cfgs))
+			for rd, c := range cfgs {
+				if c.periodic {
+					n0[rd] = wd.exps[rd].count()
+				}
+			}
+			e := wd.mp.ForceFlush(ctx)
+			for rd, c := range cfgs {
+				if c.periodic {
+					dels[rd] = append(dels[rd], wd.exps[rd].since(n0[rd])...)
+					codes[rd] = append(codes[rd], "7")
+					terms = append(terms, vgen.App("Fl", vgen.N(uint64(rd))))
+				}
+			}
+			descOps = append(descOps, fmt.Sprintf("MeterProvider.ForceFlush -> %d", code(e)))
+			w.Tally("seq:provider ForceFlush")
+		case "pshutdown":
+			if pdown { // the provider shuts its readers down once
+				if e := wd.mp.Shutdown(ctx); !errors.Is(e, sdk.ErrReaderShutdown) {
+					w.Violation(fmt.Sprintf("second MeterProvider.Shutdown returned %v", e), desc)
+				}
+				return
+			}
+			pdown = true
+			n0 := make([]int, len(cfgs))
+			for rd, c := range cfgs {
+				if c.periodic {
+					n0[rd] = wd.exps[rd].count()
+				}
+			}
+			e := wd.mp.Shutdown(ctx)
+			for rd, c := range cfgs {
+				if c.periodic {
+					dels[rd] = append(dels[rd], wd.exps[rd].since(n0[rd])...)
+				}
+				down[rd] = true
+				codes[rd] = append(codes[rd], "7")
+				terms = append(terms, vgen.App("Sd", vgen.N(uint64(rd))))
+			}
+			descOps = append(descOps, fmt.Sprintf("MeterProvider.Shutdown -> %d", code(e)))
+			w.Tally("seq:provider Shutdown")
 		}
 	}
 	if gen {
@@ -618,11 +770,13 @@ func runSequential(w *vgen.Writer, r *vgen.Rand, desc string, cfgs []readerCfg, 
 			switch {
 			case c < 55:
 				i := r.Intn(nInst)
-				step(seqOp{typ: "add", i: i, set: r.Intn(len(sets)), v: genValue(r, wd.insts[i])})
+				step(seqOp{typ: "add", i: i, set: r.Intn(len(sets)), v: genValue(r, wd.insts[i]), mode: r.Intn(3), h: r.Intn(4)})
 			case c < 66:
-				step(seqOp{typ: "collect", r: rd})
+				step(seqOp{typ: "collect", r: rd, v: int64(r.Intn(6))})
 			case c < 72:
 				step(seqOp{typ: "collectc", r: rd})
+			case c < 75:
+				step(seqOp{typ: "pflush"})
 			case c < 88:
 				if cfgs[rd].periodic {
 					step(seqOp{typ: "flush", r: rd})
@@ -636,6 +790,8 @@ func runSequential(w *vgen.Writer, r *vgen.Rand, desc string, cfgs []readerCfg, 
 				}
 			case c < 96 && n > nOps/2:
 				step(seqOp{typ: "shutdown", r: rd})
+			case c < 98 && n > nOps/2:
+				step(seqOp{typ: "pshutdown"})
 			}
 		}
 		// close every reader so that the final collection of periodic readers is part of the history
@@ -783,7 +939,7 @@ func runConcurrent(w *vgen.Writer, r *vgen.Rand, desc string) {
 		go func() {
 			defer adders.Done()
 			for j, p := range plans[g] {
-				wd.insts[p.inst].add(ctx, p.v, metric.WithAttributes(toAttr(sets[p.set])...))
+				wd.insts[p.inst].add(ctx, p.v, sets[p.set], j, j/3)
 				if yields[g] > 0 && j%yields[g] == 0 {
 					runtime.Gosched()
 				}
@@ -925,7 +1081,7 @@ func runCtxExpiry(w *vgen.Writer, r *vgen.Rand, desc string, variantA bool) {
 			i := r.Intn(nInst)
 			s := sets[r.Intn(len(sets))]
 			v := genValue(r, wd.insts[i])
-			wd.insts[i].add(ctx, v, metric.WithAttributes(toAttr(s)...))
+			wd.insts[i].add(ctx, v, s, j, j/2)
 			totals[i][keyIdx[canon(s)]] += v
 		}
 	}
@@ -1032,7 +1188,7 @@ func main() {
 	otel.SetLogger(logr.Discard())
 	otel.SetErrorHandler(otel.ErrorHandlerFunc(func(error) {}))
 	r := vgen.NewRand(o.Seed)
-	w := vgen.NewWriter(o.Out, "Lib.MetricsModel C02.Spec C02.Model C02.Corr", "case", 160)
+	w := vgen.NewWriter(o.Out, "Lib.MetricsModel C02.Spec C02.Model C02.Corr", "case", 64)
 	w.Rule = "sequential histories (Add / Collect / ForceFlush / Shutdown / callback-fails toggle) over 1-3 instruments (counter, up-down counter; int64 and float64 with multiples of 2^-10) and 1-3 readers (manual, periodic with a recording exporter; delta, cumulative) compared with the model and judged by the spec; " +
 		"completed concurrent histories (2-8 adding goroutines, one collector/flusher per reader, periodic interval 1-4 ms, final collection after all adders returned) judged by the spec; a case is non-trivial when at least two deliveries were observed"
 	guard := func(desc string, f func()) {
